@@ -65,3 +65,135 @@ def reader_table(p: Program):
             if tname is not None:
                 out.setdefault(tname, []).append((T, attrs, conds, test))
     return fi, src_param, out
+
+
+# ---------------------------------------------------------------------------------------------------- PARSE
+class _ParseEval:
+    """Executes MidiMessage.parse_mido_message for one (mido type string, velocity class, has channel?) case.  Every test
+    of the function is decidable from the case; the result is the set of attribute stores that happen."""
+
+    def __init__(self, src_param: str, msg_var: str, mtype: str, vel: str, has_channel: bool):
+        self.sp, self.mv, self.mtype, self.vel, self.has_channel = src_param, msg_var, mtype, vel, has_channel
+        self.stores: dict[str, ast.AST] = {}
+        self.unknown: list[ast.AST] = []
+
+    def truth(self, t):
+        if isinstance(t, ast.BoolOp):
+            vals = [self.truth(v) for v in t.values]
+            if isinstance(t.op, ast.And):
+                return False if any(v is False for v in vals) else (True if all(v is True for v in vals) else None)
+            return True if any(v is True for v in vals) else (False if all(v is False for v in vals) else None)
+        if isinstance(t, ast.UnaryOp) and isinstance(t.op, ast.Not):
+            v = self.truth(t.operand)
+            return None if v is None else not v
+        if isinstance(t, ast.Call) and isinstance(t.func, ast.Name) and t.func.id == "hasattr" and len(t.args) == 2 and src(t.args[0]) == self.sp \
+                and isinstance(t.args[1], ast.Constant):
+            if t.args[1].value == "channel":
+                return self.has_channel
+            return None
+        if isinstance(t, ast.Compare) and len(t.ops) == 1:
+            l, r, op = t.left, t.comparators[0], t.ops[0]
+            if isinstance(l, ast.Constant) and not isinstance(r, ast.Constant):
+                l, r = r, l
+                op = {ast.Lt: ast.Gt, ast.Gt: ast.Lt, ast.LtE: ast.GtE, ast.GtE: ast.LtE}.get(type(op), type(op))()
+            if src(l) == f"{self.sp}.type" and isinstance(r, ast.Constant) and isinstance(r.value, str):
+                if isinstance(op, ast.Eq):
+                    return self.mtype == r.value
+                if isinstance(op, ast.NotEq):
+                    return self.mtype != r.value
+            if src(l) == f"{self.sp}.type" and isinstance(op, (ast.In, ast.NotIn)) and isinstance(r, (ast.Tuple, ast.List, ast.Set)):
+                vals = [e.value for e in r.elts if isinstance(e, ast.Constant)]
+                return (self.mtype in vals) == isinstance(op, ast.In)
+            if src(l) == f"{self.sp}.velocity" and isinstance(r, ast.Constant):
+                # only tests that split the velocities at 0 are decidable from the case (1..127 vs 0)
+                splits = (type(op), r.value) in ((ast.Gt, 0), (ast.GtE, 1), (ast.Eq, 0), (ast.NotEq, 0), (ast.Lt, 1), (ast.LtE, 0))
+                v = {"pos": 64, "zero": 0}.get(self.vel)
+                if v is None or not splits:
+                    return None
+                return {ast.Gt: v > r.value, ast.GtE: v >= r.value, ast.Lt: v < r.value, ast.LtE: v <= r.value, ast.Eq: v == r.value,
+                        ast.NotEq: v != r.value}.get(type(op))
+        return None
+
+    def run(self, body):
+        for s in body:
+            if isinstance(s, ast.If):
+                v = self.truth(s.test)
+                if v is None:
+                    self.unknown.append(s.test)
+                    self.run(s.body)
+                    self.run(s.orelse)
+                else:
+                    self.run(s.body if v else s.orelse)
+            elif isinstance(s, ast.Assign) and len(s.targets) == 1 and isinstance(s.targets[0], ast.Attribute) and src(s.targets[0].value) == self.mv:
+                self.stores[s.targets[0].attr] = s.value
+            elif isinstance(s, ast.Return):
+                return
+
+
+PARSE_EXPECT = {
+    # (mido type, velocity class) -> (MessageType, {attribute: mido attribute})
+    ("note_on", "pos"): ("NOTE_ON", {"note": "note", "velocity": "velocity"}),
+    ("note_on", "zero"): ("NOTE_OFF", {"note": "note"}),
+    ("note_off", "pos"): ("NOTE_OFF", {"note": "note"}),
+    ("note_off", "zero"): ("NOTE_OFF", {"note": "note"}),
+    ("time_signature", None): ("TIME_SIGNATURE", {"numerator": "numerator", "denominator": "denominator"}),
+    ("key_signature", None): ("KEY_SIGNATURE", {"key": "key"}),
+    ("control_change", None): ("CONTROL_CHANGE", {"control": "control", "velocity": "value"}),
+    ("program_change", None): ("PROGRAM_CHANGE", {"program": "program"}),
+    ("sysex", None): (None, {}),
+}
+
+
+def parse_rule(ctx, rule: str = "PARSE") -> int:
+    """The reader's dispatch decided case by case: for each mido message type (note_on split by velocity > 0 / == 0) the
+    resulting MessageType and the fields copied from the mido message; time always, channel iff the mido message has one."""
+    p = ctx.p
+    fi = p.func("MidiMessage.parse_mido_message")
+    ctx.analysed(fi)
+    q = fi.qualname
+    sp = fi.params[0]
+    ret = next((r for r in walk_local(fi.node) if isinstance(r, ast.Return) and isinstance(r.value, ast.Name)), None)
+    if ret is None:
+        ctx.undetermined(rule, f"{q}: reader dispatch", "does not return a local message object: not judged")
+        return 0
+    mv = ret.value.id
+    n = 0
+    for (mtype, vel), (T, fields) in PARSE_EXPECT.items():
+        for has_ch in (True, False):
+            ev = _ParseEval(sp, mv, mtype, vel or "pos", has_ch)
+            ev.run(fi.node.body)
+            what = f"mido `{mtype}`" + (f" with velocity {'> 0' if vel == 'pos' else '== 0'}" if vel and mtype.startswith("note") else "") + \
+                   (" (with channel)" if has_ch else " (without channel)")
+            if ev.unknown and ".velocity" in src(ev.unknown[0]):
+                n += 1
+                ctx.check(False, rule, f"{q}: {what}", function=q, construct="reader's velocity test does not split note_on at velocity 0",
+                          message=f"`{short(ev.unknown[0])}`: note_on messages must be NOTE_ON for every velocity 1..127 and NOTE_OFF for 0", file=fi.file,
+                          node=ev.unknown[0])
+                continue
+            if ev.unknown:
+                ctx.undetermined(rule, f"{q}: {what}", f"test `{short(ev.unknown[0])}` not decidable from the case")
+                continue
+            gotT = enum_member(ev.stores["message_type"], "MessageType") if "message_type" in ev.stores else None
+            bad = []
+            if gotT != T:
+                bad.append(f"becomes {gotT}, required {T}")
+            for a, srcattr in fields.items():
+                v = ev.stores.get(a)
+                okv = v is not None and any(isinstance(x, ast.Attribute) and x.attr == srcattr and src(x.value) == sp for x in ast.walk(v))
+                if not okv:
+                    bad.append(f"`{a}` is not taken from the mido message's `{srcattr}` ({short(v) if v is not None else 'not set'})")
+            tv = ev.stores.get("time")
+            if not (isinstance(tv, ast.Attribute) and tv.attr == "time" and src(tv.value) == sp):
+                bad.append("`time` (the delta) is not copied")
+            ch = ev.stores.get("channel")
+            if has_ch and not (isinstance(ch, ast.Attribute) and ch.attr == "channel" and src(ch.value) == sp):
+                bad.append("`channel` is not copied although the mido message has one")
+            if not has_ch and ch is not None and any(isinstance(x, ast.Attribute) and x.attr == "channel" and src(x.value) == sp for x in ast.walk(ch)):
+                bad.append("`channel` is read although the mido message has none (AttributeError)")
+            extra = sorted(set(ev.stores) - set(fields) - {"message_type", "time", "channel", "velocity"})
+            if T is None and (set(ev.stores) - {"time", "channel"}):
+                bad.append(f"an unhandled mido type sets {sorted(set(ev.stores) - {'time', 'channel'})}")
+            n += 1
+            ctx.check(not bad, rule, f"{q}: {what} -> {gotT} with {sorted(set(ev.stores) - {'message_type'})}", function=q,
+                      construct=f"reader handles {what.split(' (')[0]} wrongly" if bad else "ok", message="; ".join(bad), file=fi.file, node=fi.node)
+    return n
